@@ -37,7 +37,7 @@ Definition runN (behs : list beh) (sched : list gchoice) : gst := grun P C sched
    narrowed `except`, a send before the exception test ... make this evaluate to false.
    (The evaluation itself - vm_compute, about 20 s - lives in Proofs/SubprocCheck.v, which
    `make` rebuilds whenever Gen/Subproc.v changes.) *)
-Theorem C17_programs_check : check_all P C false = true.
+Theorem C17_programs_check : check_all P C true = true.
 Proof. exact programs_check. Qed.
 Print Assumptions C17_programs_check.
 
@@ -52,14 +52,10 @@ Print Assumptions C17_wrapper_shape.
 (* ---- one invocation ------------------------------------------------------------------------ *)
 (* FULL STATEMENT (refuted below, kept visible):
      forall b sched, p_done (run1 b sched) = true -> spec_ok b (run1 b sched) = true.
-   It fails in two regions.
+   It fails in one region (a second one, K2 - unpickling in the parent raises - is repaired).
    (K1) the callee RETURNS an object that is itself a SubprocessError; the parent cannot tell
         it from the child's error envelope and raises its `.exception` attribute instead of
-        returning the object (C17_single_faithful_refuted).
-   (K2) the payload pickles in the child but UNPICKLING it in the parent raises (an exception
-        class whose __init__ needs two arguments, a __reduce__ callable that raises): rx.recv()
-        raises a class the try statement does not catch, process.join() and rx.close() are
-        skipped (C17_no_fd_no_zombie_on_exit_refuted). *)
+        returning the object (C17_single_faithful_refuted). *)
 Theorem C17_single_faithful_refuted :
   exists b sched, callee_reports b = true /\ b_out b = COk /\
     p_stat (ps (run1 b sched)) = PSDone (FRaise XRetAttr) /\ spec_ok b (run1 b sched) = false.
@@ -75,12 +71,12 @@ Print Assumptions C17_single_faithful_refuted.
    without reporting, an exception that does not pretend to be the callee's), and no pipe
    end, reader callback, running or un-reaped child is left. *)
 Theorem C17_single_spec_partial : forall b sched,
-  returns_envelope b = false -> b_unp b = false ->
+  returns_envelope b = false ->
   p_done (run1 b sched) = true -> spec_ok b (run1 b sched) = true.
 Proof.
-  intros b sched He Hu Hd. apply (done_spec P C false C17_programs_check); auto.
+  intros b sched He Hd. apply (done_spec P C true C17_programs_check); auto.
   - apply lrun_reach. constructor.
-  - now rewrite Hu.
+  - now rewrite andb_false_r.
 Qed.
 Print Assumptions C17_single_spec_partial.
 
@@ -93,7 +89,7 @@ Theorem C17_single_faithful_partial : forall b sched f,
   | _ => if b_isa b StopIterationC then f = FRaise (XCls RuntimeErrorC) else f = FRaise XCallee
   end.
 Proof.
-  intros b sched f. apply (faithful_exact P C false programs_check). apply lrun_reach. constructor.
+  intros b sched f. apply (faithful_exact P C true programs_check). apply lrun_reach. constructor.
 Qed.
 Print Assumptions C17_single_faithful_partial.
 
@@ -104,7 +100,7 @@ Theorem C17_single_child_death_outcome : forall b sched f,
   p_stat (ps (run1 b sched)) = PSDone f ->
   model_final b f = true \/ (c_killed (cs (run1 b sched)) = true /\ is_cpe f = true).
 Proof.
-  intros b sched f. apply (death_outcome P C false programs_check). apply lrun_reach. constructor.
+  intros b sched f. apply (death_outcome P C true programs_check). apply lrun_reach. constructor.
 Qed.
 Print Assumptions C17_single_child_death_outcome.
 
@@ -118,38 +114,23 @@ Theorem C17_single_terminates_all_crash_points : forall b sched,
 Proof.
   intros b sched. pose proof (lrun_reach P C b sched linit (lr_init P C b)) as Hr.
   split; [|split].
-  - apply (effective_bounded P C false C17_programs_check). constructor.
-  - apply (never_blocked_forever P C false C17_programs_check). exact Hr.
-  - exact (finish_after P C false programs_check b sched).
+  - apply (effective_bounded P C true C17_programs_check). constructor.
+  - apply (never_blocked_forever P C true C17_programs_check). exact Hr.
+  - exact (finish_after P C true programs_check b sched).
 Qed.
 Print Assumptions C17_single_terminates_all_crash_points.
 
-(* FULL STATEMENT (refuted, kept visible): no descriptor, reader callback, live or un-reaped
-   child on ANY exit path:
-     forall b sched, p_done (run1 b sched) = true -> clean_exit (run1 b sched) = true.
-   Witness (K2): a returning callee whose result cannot be unpickled in the parent: the await
-   raises, the parent still holds the read end, the child is an un-reaped zombie. *)
-Theorem C17_no_fd_no_zombie_on_exit_refuted :
-  exists b sched, let s := run1 b sched in
-    p_stat (ps s) = PSDone (FRaise (XCls UnpickleErrC)) /\ clean_exit s = false /\
-    e_rx (p_ends (ps s)) = true /\ zombie (c_stat (cs s)) (p_joined (ps s)) = true.
+(* no descriptor, reader callback, live or un-reaped child on ANY exit path (return or raise,
+   also in region K1, also when unpickling the received message raises in the parent - the
+   former region K2, repaired by moving join()/rx.close() into a finally) *)
+Theorem C17_no_fd_no_zombie_on_exit : forall b sched,
+  p_done (run1 b sched) = true -> clean_exit (run1 b sched) = true.
 Proof.
-  exists (mk_beh COk [] false true false false true).
-  exists (LParent :: flat_map (fun _ => [LParent; LChild]) (seq 0 40)).
-  vm_compute. repeat split; reflexivity.
-Qed.
-Print Assumptions C17_no_fd_no_zombie_on_exit_refuted.
-
-(* ... on every exit path (return or raise, also in region K1) whenever unpickling in the
-   parent succeeds - the narrowest guard: it is a property of the transferred object alone *)
-Theorem C17_no_fd_no_zombie_on_exit_partial : forall b sched,
-  b_unp b = false -> p_done (run1 b sched) = true -> clean_exit (run1 b sched) = true.
-Proof.
-  intros b sched Hu Hd. apply (done_clean P C false C17_programs_check b); auto.
+  intros b sched Hd. apply (done_clean P C true C17_programs_check b); auto.
   - apply lrun_reach. constructor.
-  - now rewrite Hu.
+  - now rewrite andb_false_r.
 Qed.
-Print Assumptions C17_no_fd_no_zombie_on_exit_partial.
+Print Assumptions C17_no_fd_no_zombie_on_exit.
 
 (* the outcome itself needs no such guard: also when unpickling raises, the awaiting task gets
    an exception that does not pretend to be the callee's outcome *)
@@ -157,7 +138,7 @@ Theorem C17_single_outcome_partial : forall b sched f,
   returns_envelope b = false -> p_stat (ps (run1 b sched)) = PSDone f ->
   outcome_ok b (c_killed (cs (run1 b sched))) f = true.
 Proof.
-  intros b sched f He Hf. apply (done_outcome P C false C17_programs_check); auto.
+  intros b sched f He Hf. apply (done_outcome P C true C17_programs_check); auto.
   apply lrun_reach. constructor.
 Qed.
 Print Assumptions C17_single_outcome_partial.
@@ -181,7 +162,7 @@ Print Assumptions C17_no_fd_no_zombie_on_exit_if_protected.
 Theorem C17_single_nonblocking : forall b sched,
   sync_blocked P C b (run1 b sched) = true -> callee_pending C (run1 b sched) = false.
 Proof.
-  intros b sched. apply (nonblocking P C false C17_programs_check). apply lrun_reach. constructor.
+  intros b sched. apply (nonblocking P C true C17_programs_check). apply lrun_reach. constructor.
 Qed.
 Print Assumptions C17_single_nonblocking.
 
@@ -197,10 +178,10 @@ Theorem C17_noninterference_N : forall behs sched i v,
 Proof.
   intros behs sched i v Hv.
   pose proof (grun_reach P C behs sched (ginit behs) (gr_init P C behs)) as Hr.
-  destruct (projection P C false C17_programs_check behs _ i v Hr Hv) as [Hb Hl].
+  destruct (projection P C true C17_programs_check behs _ i v Hr Hv) as [Hb Hl].
   split; [|split].
   - exact Hb.
-  - apply (no_foreign_writer P C false C17_programs_check behs). exact Hr.
+  - apply (no_foreign_writer P C true C17_programs_check behs). exact Hr.
   - destruct (reach_lrun P C (g_beh v) (g_loc v) Hl) as [ls Hls]. exists ls. now rewrite <- Hls.
 Qed.
 Print Assumptions C17_noninterference_N.
@@ -209,13 +190,13 @@ Print Assumptions C17_noninterference_N.
    specification relative to the i-th callee, whatever the others do *)
 Theorem C17_own_result_N_partial : forall behs sched i v b,
   nth_error (g_invs (runN behs sched)) i = Some v -> nth_error behs i = Some b ->
-  returns_envelope b = false -> b_unp b = false -> p_done (g_loc v) = true -> spec_ok b (g_loc v) = true.
+  returns_envelope b = false -> p_done (g_loc v) = true -> spec_ok b (g_loc v) = true.
 Proof.
-  intros behs sched i v b Hv Hb He Hu Hd.
+  intros behs sched i v b Hv Hb He Hd.
   pose proof (grun_reach P C behs sched (ginit behs) (gr_init P C behs)) as Hr.
-  destruct (projection P C false C17_programs_check behs _ i v Hr Hv) as [Hb' Hl].
+  destruct (projection P C true C17_programs_check behs _ i v Hr Hv) as [Hb' Hl].
   rewrite Hb in Hb'. inversion Hb'; subst b.
-  apply (done_spec P C false C17_programs_check); auto. now rewrite Hu.
+  apply (done_spec P C true C17_programs_check); auto. now rewrite andb_false_r.
 Qed.
 Print Assumptions C17_own_result_N_partial.
 
@@ -229,25 +210,24 @@ Proof.
   intros behs sched.
   pose proof (grun_reach P C behs sched (ginit behs) (gr_init P C behs)) as Hr.
   split; [|split].
-  - rewrite <- (gmeasure_init P C). apply (geffective_bounded P C false C17_programs_check behs). constructor.
-  - apply (never_blocked_forever_global P C false C17_programs_check behs). exact Hr.
-  - destruct (can_finish_global P C false C17_programs_check behs _ _ Hr (le_n _)) as [ext [_ Hd]].
+  - rewrite <- (gmeasure_init P C). apply (geffective_bounded P C true C17_programs_check behs). constructor.
+  - apply (never_blocked_forever_global P C true C17_programs_check behs). exact Hr.
+  - destruct (can_finish_global P C true C17_programs_check behs _ _ Hr (le_n _)) as [ext [_ Hd]].
     exists ext. unfold runN, grun in *. now rewrite fold_left_app.
 Qed.
 Print Assumptions C17_terminates_N.
 
 (* when all N awaits have returned the parent process holds no pipe end or reader of any
    invocation and no child is running or un-reaped *)
-Theorem C17_no_fd_no_zombie_N_partial : forall behs sched,
-  forallb (fun b => negb (b_unp b)) behs = true ->
+Theorem C17_no_fd_no_zombie_N : forall behs sched,
   g_all_done (runN behs sched) = true ->
   g_parent_fds (runN behs sched) = 0 /\ g_unreaped (runN behs sched) = 0.
 Proof.
-  intros behs sched Hu Hd. apply (all_done_clean P C false C17_programs_check behs); auto.
+  intros behs sched Hd. apply (all_done_clean P C true C17_programs_check behs); auto.
   - apply grun_reach. constructor.
-  - intros b Hb. rewrite forallb_forall in Hu. specialize (Hu b Hb). apply negb_true_iff in Hu. now rewrite Hu.
+  - intros b Hb. now rewrite andb_false_r.
 Qed.
-Print Assumptions C17_no_fd_no_zombie_N_partial.
+Print Assumptions C17_no_fd_no_zombie_N.
 
 (* the coroutine that holds the loop thread is never stuck in recv/join while its callee is
    still computing (other tasks are delayed at most by a child that is sending or exiting) *)
@@ -255,7 +235,7 @@ Theorem C17_loop_thread_N : forall behs sched k v,
   g_running (runN behs sched) = Some k -> nth_error (g_invs (runN behs sched)) k = Some v ->
   gstep P C (GParent k) (runN behs sched) = None -> callee_pending C (g_loc v) = false.
 Proof.
-  intros behs sched k v. apply (holder_not_computing P C false C17_programs_check behs).
+  intros behs sched k v. apply (holder_not_computing P C true C17_programs_check behs).
   apply grun_reach. constructor.
 Qed.
 Print Assumptions C17_loop_thread_N.
@@ -266,14 +246,12 @@ Definition run1k (k : kwcoll) (b : beh) (sched : list lchoice) : lst := lrun_kw 
 (* FULL STATEMENT (refuted, kept visible): for every keyword-name class k
      forall k b sched, returns_envelope b = false -> b_unp b = false ->
        p_done (run1k k b sched) = true -> spec_ok b (run1k k b sched) = true.
-   Witnesses: a keyword named `func` (calculate_in_subprocess's own parameter): the call raises
-   TypeError; a keyword named `tx` / `fun` (_inner's parameters): the child dies before the
-   callee runs and the awaiting task gets ChildProcessError - although the callee, called
-   with the same arguments, returns. *)
+   Witness: a keyword named `func` (calculate_in_subprocess's own parameter, part of its
+   documented keyword interface): the call raises TypeError although the callee, called with
+   the same arguments, returns.  (`tx` / `fun`: _inner's parameters are positional-only now.) *)
 Theorem C17_kw_collision_refuted :
   exists b sched, callee_reports b = true /\ returns_envelope b = false /\ b_unp b = false /\
-    p_stat (ps (run1k KWParent b sched)) = PSDone (FRaise (XCls TypeErrorC)) /\ spec_ok b (run1k KWParent b sched) = false /\
-    p_stat (ps (run1k KWChild b sched)) = PSDone (FRaise (XCls ChildProcessErrorC)) /\ spec_ok b (run1k KWChild b sched) = false.
+    p_stat (ps (run1k KWParent b sched)) = PSDone (FRaise (XCls TypeErrorC)) /\ spec_ok b (run1k KWParent b sched) = false.
 Proof.
   exists (mk_beh COk [] false true false false false).
   exists (LParent :: flat_map (fun _ => [LParent; LChild]) (seq 0 40)).
@@ -292,12 +270,12 @@ Print Assumptions C17_kw_partial.
 
 (* and with a collision the invocation still terminates and leaves nothing behind *)
 Theorem C17_kw_collision_clean : forall k b sched,
-  b_unp b = false -> p_done (run1k k b sched) = true -> clean_exit (run1k k b sched) = true.
+  p_done (run1k k b sched) = true -> clean_exit (run1k k b sched) = true.
 Proof.
-  intros k b sched Hu. unfold run1k, lrun_kw, beh_kw. destruct k.
-  - now apply C17_no_fd_no_zombie_on_exit_partial.
-  - destruct (kw_parent_safe Gen.Subproc.kw_flags); [now apply C17_no_fd_no_zombie_on_exit_partial | reflexivity].
-  - destruct (kw_child_safe Gen.Subproc.kw_flags); now apply C17_no_fd_no_zombie_on_exit_partial.
+  intros k b sched. unfold run1k, lrun_kw, beh_kw. destruct k.
+  - now apply C17_no_fd_no_zombie_on_exit.
+  - destruct (kw_parent_safe Gen.Subproc.kw_flags); [now apply C17_no_fd_no_zombie_on_exit | reflexivity].
+  - destruct (kw_child_safe Gen.Subproc.kw_flags); now apply C17_no_fd_no_zombie_on_exit.
 Qed.
 Print Assumptions C17_kw_collision_clean.
 
@@ -332,9 +310,9 @@ Proof. exists (flat_map (fun _ => [LParent]) (seq 0 9) ++ [LChild; LChild; LChil
 
 Example ex_protected : check_all protected_parent_prog C true = true.
 Proof. exact protected_strict. Qed.
-Example ex_current_not_strict :      (* the strict sweep does tell the two programs apart *)
+Example ex_unpickle_error_clean :
   clean_exit (lrun protected_parent_prog C (mk_beh COk [] false true false false true) fair1 linit) = true /\
-  clean_exit (run1 (mk_beh COk [] false true false false true) fair1) = false.
+  clean_exit (run1 (mk_beh COk [] false true false false true) fair1) = true.
 Proof. vm_compute. split; reflexivity. Qed.
 
 (* three concurrent invocations with different callees, one child killed: all finish, each
